@@ -25,8 +25,11 @@ for d in sorted(glob.glob(os.path.join(VERIF, "seeded", "*"))):
     others = sorted(p for p in rep if p != prop)
     n = int(nm.split("-m")[1])
     rd = meta.get("readme_excerpt", "")
-    hdr = re.search(r"(?im)^#+\s*(?:mutant\s*)?m?%d\b\s*[-:–—]*\s*([^\n]*)" % (n if n <= 2 else n - 2), rd)
-    note = ((hdr.group(1) if hdr else "").strip().strip("`")).replace("|", "/")[:120]
+    on = n if n <= 2 else n - 2
+    if n >= 7:  # round 4: filed under the next free number of the property; the author's own number is in the confirmation command
+        on = int(re.search(r"confirm_mutant\.sh \S+ (\d+)", meta.get("confirm_cmd", "")).group(1))
+    hdr = re.search(r"(?im)^#+\s*(?:mutant\s*)?m?%d\b\s*[-:–—]*\s*([^\n]*)" % on, rd)
+    note = re.sub(r"^breaks C\d+ - ", "", ((hdr.group(1) if hdr else "").strip().strip("`")).replace("|", "/"))[:120]
     twin = ""
     tp = os.path.join(d, "benign_twin.diff")
     if os.path.exists(tp):
